@@ -1573,6 +1573,8 @@ func runC14(c *Ctx) {
 	var wg sync.WaitGroup
 	var mu sync.Mutex
 	var failure any
+	// 16 logical workers (fixed case streams), of which at most 4 run at a time in the quick tier
+	sem := make(chan struct{}, c.N(4, c14Workers))
 	for i := 0; i < c14Workers; i++ {
 		share := n / c14Workers
 		if i < n%c14Workers {
@@ -1590,6 +1592,8 @@ func runC14(c *Ctx) {
 					mu.Unlock()
 				}
 			}()
+			sem <- struct{}{}
+			defer func() { <-sem }()
 			w := newC14Worker(c, c.SubRng(uint64(i)))
 			w.run(share, i == 0)
 		}(i, share)
